@@ -138,7 +138,7 @@ func propC12(r *Run) {
 			call := &Call{Kind: "authenticate", Via: via, Agent: a.idx, User: u, PW: pw}
 			w.addClient([]*Call{call})
 			loginAt := time.Now().Unix()
-			if wedge := w.drain(drainExtra); wedge != "" {
+			if wedge := w.settle(drainExtra); wedge != "" {
 				if mode == "remote" && w.rtMode == "stall" && call.done.Load() {
 					// a stalled master keeps its worker goroutine waiting; that is not a client call
 				} else {
